@@ -40,6 +40,7 @@ type Spec struct {
 	ConcreteTitle  string   // with Title: a concrete title
 	DefsOuterFirst bool     // root only: definitions are visited outermost first (a referring definition before the one it refers to)
 	DefsPreOrder   bool     // root only: definitions are visited in declaration (pre-)order: a referring definition before the ones it refers to, after earlier siblings
+	Hostile        string   // a malformed piece injected at this node: null-property, null-items-in-allOf, null-anyOf, null-definition, empty-enum, array-without-items, unknown-type, missing-definition
 	// filled by Build
 	Atoms   map[string]*absint.Atom
 	DefName *absint.Atom
@@ -422,6 +423,41 @@ func (b *builder) build(s *Spec, label string) gen.V {
 			ns = append(ns, b.build(a, fmt.Sprintf("%s_%d", label, i)))
 		}
 		f["AnyOf"] = g.Nodes(ns...)
+	}
+	switch s.Hostile {
+	case "null-property":
+		// "properties": {"x": null}
+		nm := absint.HoleStr(b.atom(s, "RawStr", "name of the null property", true))
+		if pm, ok := f["Properties"].(*absint.Map); ok {
+			g.M.MapUpdate(pm, nm, absint.Ptr{})
+		} else {
+			f["Properties"] = g.Map([]gen.V{nm}, []gen.V{absint.Ptr{}})
+		}
+	case "null-allOf":
+		f["AllOf"] = g.Nodes(g.Node(map[string]gen.V{"Type": g.Types("object")}), absint.Ptr{})
+	case "null-anyOf":
+		f["AnyOf"] = g.Nodes(absint.Ptr{}, g.Node(map[string]gen.V{"Type": g.Types("object")}))
+	case "null-anyOf-untyped":
+		delete(f, "Type")
+		delete(f, "Properties")
+		f["AnyOf"] = g.Nodes(absint.Ptr{}, g.Node(map[string]gen.V{"Type": g.Types("object")}))
+	case "null-allOf-untyped":
+		delete(f, "Type")
+		delete(f, "Properties")
+		f["AllOf"] = g.Nodes(g.Node(map[string]gen.V{"Type": g.Types("object")}), absint.Ptr{})
+	case "empty-enum":
+		f["Enum"] = g.Anys()
+	case "nonprimitive-enum":
+		f["Enum"] = g.Anys(gen.Any(gen.TAnyMap(), g.Map(nil, nil)))
+	case "unknown-type":
+		f["Type"] = g.Types("strnig")
+	case "missing-definition":
+		f = map[string]gen.V{"Ref": absint.Cat(absint.Lit("#/$defs/"), absint.HoleStr(b.atom(s, "RawStr", "name of a definition that does not exist", true)))}
+	case "bad-pointer":
+		f = map[string]gen.V{"Ref": absint.Lit("#/properties/x")}
+	case "null-definition":
+		b.defKeys = append(b.defKeys, absint.HoleStr(b.atom(s, "RawStr", "name of the null definition", true)))
+		b.defVals = append(b.defVals, absint.Ptr{})
 	}
 	node := g.Node(f)
 	s.node = node
